@@ -32,13 +32,19 @@ def build_driver():
     return vlib.harness("drv_err", ["drv_err.c", "wrap_alloc.c"], VARIANT, extra=WRAP + LIB_EXTRA, lib_extra=LIB_EXTRA)
 
 
-def gen_cases(ctx):
-    """TLC enumerates the contract's cases. -> (list of case dicts, TlcResult) or (None, r)"""
-    r = vlib.tlc("Gen_Err", timeout=600, quiet=True, workers=4)
+def gen_cases(ctx, pairwise=False):
+    """TLC enumerates the contract's cases. -> (list of case dicts, TlcResult) or (None, r)
+    pairwise (thorough tier): also every value of one argument x every value of another one."""
+    r = vlib.tlc("Gen_Err", "Gen_ErrPairs.cfg" if pairwise else None, timeout=900, quiet=True, workers=4)
     if vlib.tlc_infra_failed(r) or r.rc != 0:
         return None, r
-    cases = r.jsons()
-    cases.sort(key=lambda c: (c["fn"], c["p"], c["v"]))
+    cases, seen = [], set()
+    for c in sorted(r.jsons(), key=lambda c: (c["fn"], c["q"] != "", c["p"], c["v"], c["q"], c["w"])):
+        k = (c["fn"], tuple(sorted(c["a"].items())), c["q"] != "" or c["p"] == "")
+        if c["q"] and k in seen:
+            continue                      # (p,v,q,w) and (q,w,p,v) are the same call
+        seen.add(k)
+        cases.append(c)
     return cases, r
 
 
@@ -63,18 +69,20 @@ def make_commands(ctx, cases, fns, faults_on_valid_sweeps):
     """-> list of dict(id, fn, mode, line, case)"""
     cmds = []
 
-    def add(fn, mode, a, case, tamper=None):
+    def add(fn, mode, a, case, tamper=None, variant=0):
         i = len(cmds) + 1
         line = "call id=%d fn=%s mode=%s %s" % (i, fn, mode, " ".join("%s=%d" % kv for kv in sorted(a.items())))
         if tamper:
             line += " tamper=" + tamper
+        if variant:
+            line += " variant=%d" % variant
         cmds.append({"id": i, "fn": fn, "mode": mode, "line": line, "case": case, "tamper": tamper})
 
     # quick: fault injection on the baseline and on the largest valid value of every swept scalar
     # (bigger sizes reach the multi-block / multi-allocation paths); thorough: on every valid case
     maxvalid = {}
     for c in cases:
-        if not c["viol"] and c["p"] and not c["p"].startswith("ok_"):
+        if not c["viol"] and c["p"] and not c["p"].startswith("ok_") and not c.get("q"):
             k = (c["fn"], c["p"])
             maxvalid[k] = max(maxvalid.get(k, c["v"]), c["v"])
     for c in cases:
@@ -82,12 +90,14 @@ def make_commands(ctx, cases, fns, faults_on_valid_sweeps):
             continue
         add(c["fn"], "sweep", c["a"], c)
         valid = not c["viol"]
-        if c.get("fault") and valid and (c["p"] == "" or faults_on_valid_sweeps or
-                                         (maxvalid.get((c["fn"], c["p"])) == c["v"] and c["v"] != c["a"].get(c["p"] + "_base", None))):
+        if c.get("fault") and valid and (c["p"] == "" or (faults_on_valid_sweeps and not c.get("q")) or
+                                         (maxvalid.get((c["fn"], c["p"])) == c["v"] and not c.get("q"))):
             add(c["fn"], "fault", c["a"], c)
         if c["p"] == "":
-            for t in sorted(c.get("tamper", [])):
-                add(c["fn"], "auth", c["a"], c, tamper=t)
+            # tampering is defined on the baseline shape; thorough repeats it on 3 more data variants
+            for var in ([0] if not faults_on_valid_sweeps else [0, 1, 2, 3]):
+                for t in sorted(c.get("tamper", [])):
+                    add(c["fn"], "auth", c["a"], c, tamper=t, variant=var)
     return cmds
 
 
@@ -228,7 +238,7 @@ def validate_heap(ctx, calls, invariants, tag, max_viol_per_fn=6):
                 if it < max_viol_per_fn:
                     viol.append((inv, fn, cid, ev))
                 else:
-                    viol.append(("more", fn, cid, ev))
+                    vlib.log("[heap] %s: more than %d violating calls, the rest is not listed" % (fn, max_viol_per_fn))
                     break
                 lst = [(c, e) for c, e in lst if c != cid]
                 continue
@@ -283,7 +293,9 @@ def class_of(case, cases_by_fn):
     below / above / between / valid"""
     if case["p"] == "":
         return "baseline"
-    vals = sorted(c["v"] for c in cases_by_fn[case["fn"]] if c["p"] == case["p"] and not c["viol"])
+    if case.get("q"):
+        case = primary(case, cases_by_fn)
+    vals = sorted(c["v"] for c in cases_by_fn[case["fn"]] if c["p"] == case["p"] and not c["viol"] and not c.get("q"))
     v = case["v"]
     if not case["viol"]:
         return "valid"
@@ -294,6 +306,20 @@ def class_of(case, cases_by_fn):
     if v > vals[-1]:
         return "above"
     return "between"
+
+
+def primary(case, cases_by_fn):
+    """pair case -> the single-argument view that names it: the argument whose value alone is out of
+    domain (first p, then q); both valid alone -> p.  Keeps the keys of the thorough tier equal to
+    those of the quick tier for the same defect."""
+    if not case.get("q"):
+        return case
+    single = {(c["p"], c["v"]): c for c in cases_by_fn[case["fn"]] if not c.get("q")}
+    for a, b in ((case["p"], case["v"]), (case["q"], case["w"])):
+        s1 = single.get((a, b))
+        if s1 is not None and s1["viol"]:
+            return dict(case, p=a, v=b, q="", w=0, viol=case["viol"], expect=case["expect"])
+    return dict(case, q="", w=0)
 
 
 ERRNAME = {}
@@ -327,7 +353,7 @@ def report(ctx, key, text, data=None):
 def run(ctx):
     ev = ctx.ev
     drv = build_driver()
-    cases, r = gen_cases(ctx)
+    cases, r = gen_cases(ctx, pairwise=not ctx.quick)
     if cases is None:
         if r.rc == 12 and "Table" in (r.violation or ""):
             ctx.note_inconclusive("ErrContract table inconsistent (baseline invalid or clause unreachable): " + (r.violation or "")[:400])
@@ -369,7 +395,7 @@ def run(ctx):
         elif c["mode"] == "auth":
             key = "crash:%s:auth:%s" % (c["fn"], c["tamper"])
         else:
-            key = "crash:%s:%s:%s" % (c["fn"], case["p"] or "baseline", class_of(case, cases_by_fn))
+            key = "crash:%s:%s:%s" % (c["fn"], primary(case, cases_by_fn)["p"] or "baseline", class_of(case, cases_by_fn))
         if key in seen_crash:
             continue
         seen_crash.add(key)
@@ -426,14 +452,15 @@ def run(ctx):
     classes = set()
     for o in sweeps:
         c = byid[o["id"] // 1000]["case"]
-        classes.add((o["fn"], c["p"], class_of(c, cases_by_fn)))
+        classes.add((o["fn"], c["p"], class_of(c, cases_by_fn), c.get("q", ""),
+                     class_of(dict(c, p=c["q"], v=c["w"], q=""), cases_by_fn) if c.get("q") else ""))
     for o in faults:
         classes.add((o["fn"], "fault", o["failAt"]))
     for o in auths:
         classes.add((o["fn"], "auth", o["tamper"]))
     ev.cov["evaluations"] = n + acc
     ev.cov["distinct_nontrivial"] = len(classes)
-    ev.cov["rule"] = ("distinct (function, argument, boundary class below/valid/between/above) of the swept calls + "
+    ev.cov["rule"] = ("distinct (function, argument, boundary class below/valid/between/above [, second argument, its class]) of the swept calls + "
                       "(function, fault position k) of the allocation-failure runs + (function, tamper kind)")
     ev.cov["sweep_calls"] = len(sweeps)
     ev.cov["sweep_calls_out_of_domain"] = sum(1 for o in sweeps if byid[o["id"] // 1000]["case"]["viol"])
@@ -474,6 +501,7 @@ def classify_bad_line(o, c, cases_by_fn, evs=None):
     if o["op"] == "sweep":
         case = c["case"]
         cl = class_of(case, cases_by_fn)
+        case = primary(case, cases_by_fn)
         exp = [en(x) for x in case["expect"]]
         if case["viol"] and o["rc"] == 0:
             kind = "accepted"
